@@ -156,6 +156,38 @@ pub fn shape_toks() -> Vec<(String, Vec<String>)> {
             toks(&format!("pragma solidity 0.8.19 ; contract Id {{ uint256 private {id} ; uint256 constant public {id}c = 1 ; function {id}f ( uint256 {id}p ) private {{ {id} = {id}p ; }} function {id}g ( ) public payable {{ }} modifier {id}m ( ) {{ _ ; }} event {id}E ( ) ; struct {id}S {{ uint128 {id}a ; uint256 {id}b ; uint128 {id}c ; }} }}", id = id)),
         ));
     }
+    // statements and expressions off the beaten track (each also carries ordinary instances of several patterns, so that a
+    // construct that swallows its operands or its body shows as a miss)
+    for (nm, t) in [
+        ("bare-catch-body", "try this . p ( ) returns ( uint256 v ) { h ++ ; } catch { h ++ ; h = h * 2 ; if ( h >= 1 ) { } }"),
+        ("for-without-body", "for ( h = 0 ; h < arr . length && h >= 1 ; ++ h ) ; for ( ; ; ) { break ; }"),
+        ("open-slices", "bytes memory d = msg . data [ : h / 32 * 32 ] ; d = msg . data [ h * 2 : ] ; d = msg . data [ 1 : h ++ ] ; IERC20 ( t ) . transfer ( t , h ) ;"),
+        ("tuple-with-holes", "( h , , g ) = q ( ) ; ( , h ) = q ( ) ; ( h , ) = q ( ) ; ( uint256 a , , uint256 b ) = q ( ) ; a = b + 1 ;"),
+        ("named-arguments-and-options", "q ( { x : h ++ , y : h * 2 } ) ; t . call { value : h + 1 , gas : 2 ** 3 } ( \"\" ) ; new Try { salt : bytes32 ( h ) } ( ) ;"),
+        ("conditional-delete-typeinfo", "h = h >= 1 ? h ++ : h * 2 ; delete h ; h = type ( uint256 ) . max ; bytes4 i4 = type ( IERC20 ) . interfaceId ; h = h == 0 ? 1 : 2 ;"),
+        ("emit-revert-custom", "emit Ev ( h ++ , h * 2 ) ; if ( h >= 1 ) { revert Custom ( h + 1 ) ; } revert ( ) ;"),
+        ("do-while-unchecked", "do { h ++ ; } while ( h <= 10 ) ; unchecked { ++ h ; h ++ ; } ++ h ;"),
+        ("assembly-with-calls", "assembly { sstore ( keccak256 ( 0 , 64 ) , h ) mstore ( 0 , keccak256 ( 0 , 32 ) ) let k := keccak256 ( 0 , 32 ) if eq ( k , 0 ) { revert ( 0 , 0 ) } for { } lt ( k , 10 ) { k := add ( k , 1 ) } { } selfdestruct ( k ) } h = uint256 ( keccak256 ( abi . encode ( h ) ) ) ;"),
+    ] {
+        v.push((format!("scale:{}", nm), toks(&format!("pragma solidity 0.8.19 ; contract Rare {{ uint256 h ; uint256 g ; uint256 [ ] arr ; address t ; function f ( ) public payable {{ {} }} }}", t))));
+    }
+    // declarations off the beaten track
+    for (nm, t) in [
+        ("address-payable-state-variables", "contract Ap { address payable public _treasury ; address payable private sink ; address payable public constant DEAD = payable ( address ( 1 ) ) ; address payable immutable keep ; constructor ( ) { keep = payable ( msg . sender ) ; sink = payable ( msg . sender ) ; } }"),
+        ("fixed-size-arrays", "contract Fa { uint256 [ 256 ] nodes ; address owner ; uint256 [ 200 ] a ; uint256 [ 200 ] b ; struct S { bool b ; uint128 [ 1024 ] x ; bool c ; } uint8 [ 3 ] [ 4 ] grid ; }"),
+        ("unnamed-parameters", "contract Un { function onReceived ( address , address , uint256 , bytes memory ) external returns ( bytes4 ) { return 0x150b7a02 ; } function g ( uint256 [ ] memory , string memory s ) public { s = s ; } }"),
+        ("interface-declarations", "interface Idecl { function _p ( ) external ; function q ( bytes memory data ) external returns ( uint256 ) ; } abstract contract Adecl { function f ( ) external virtual ; constructor ( ) { } modifier m ( ) virtual ; }"),
+        ("non-elementary-state-variables", "contract Ne { struct P { uint256 x ; } uint256 [ ] values ; P point ; IERC20 token ; mapping ( address => uint256 ) bal ; function ( ) external cb ; function w ( uint256 [ ] memory v , P memory p , IERC20 k ) public { values = v ; point = p ; token = k ; } }"),
+        ("typeinfo-in-constructor", "interface Itf { function f ( ) external ; } contract Ti { bytes4 id ; uint256 top ; constructor ( ) { id = type ( Itf ) . interfaceId ; top = type ( uint256 ) . max ; } }"),
+        ("value-types-and-operators", "type Price is uint128 ; using { padd as + } for Price global ; function padd ( Price a , Price b ) pure returns ( Price ) { return a ; } struct Order { Price bid ; uint256 amount ; Price ask ; } contract Book { Price a ; uint256 b ; Price c ; }"),
+        ("file-level-only", "struct Lone { uint128 a ; uint256 b ; uint128 c ; } uint256 constant K = 7 * 2 ; function lone ( uint256 [ ] memory p , uint256 q ) pure returns ( uint256 ) { return p [ 0 ] / q * 4 + q ++ ; } error Failed ( uint256 a ) ; enum Kind { A , B }"),
+        ("named-mapping-keys-and-imports", "import { A as B } from \"./x.sol\" ; import * as X from \"./y.sol\" ; contract Nm is B { mapping ( address owner => mapping ( uint256 id => bool ok ) ) public flags ; }"),
+    ] {
+        v.push((format!("scale:{}", nm), toks(&format!("pragma solidity 0.8.19 ; {}", t))));
+    }
+    // files with no definition at all / with a directive only
+    v.push(("scale:directive-only".to_string(), toks("pragma solidity ^ 0.8.0 ;")));
+    v.push(("scale:two-directives-only".to_string(), toks("pragma abicoder v2 ; pragma solidity ^ 0.8.0 ;")));
     for (nm, t) in [
         ("undeclared-modifier", "contract V is O { function close ( ) public auth { selfdestruct ( payable ( msg . sender ) ) ; } }"),
         ("undeclared-modifier-with-arguments", "contract V is O { function close ( ) external auth ( msg . sender ) whenOpen { selfdestruct ( payable ( msg . sender ) ) ; } }"),
